@@ -242,7 +242,57 @@ class Analysis:
         else:
             callee = ('ind', self.term_at(bb, idx, t['f']))
         args = tuple(self.term_at(bb, idx, a) for a in t['args'])
-        return ('call', callee, args, bb)
+        ct = ('call', callee, args, bb)
+        red = self._beta(ct)
+        return red if red is not None else ct
+
+    def _beta(self, ct, depth=0):
+        """a closure that is built and called in the same function — `let f = |p| expr; .. f(x)` — is replaced by its
+        body's single return term with the captures and the arguments substituted (pure single-expression closures only)"""
+        callee, args = ct[1], ct[2]
+        if not isinstance(callee, str) or callee.split('::')[-1] not in ('call', 'call_mut', 'call_once') or 'ops::Fn' not in callee or len(args) != 2 or depth > 2:
+            return None
+        clo = args[0]
+        while clo[0] in ('ref', 'deref'):
+            clo = clo[1]
+        if clo[0] == 'mem':
+            ds = [d for d in self.defs_of.get(clo[1], []) if not d.partial and d.kind in ('assign', 'local')]
+            if len(ds) != 1:
+                return None
+            clo = self.def_term(ds[0])
+        if clo[0] != 'agg' or clo[1] != 'closure' or args[1][0] != 'agg' or args[1][1] != 'tuple':
+            return None
+        facts = getattr(self.b, 'facts', None)
+        cb = facts.bodies.get(clo[2]) if facts is not None else None
+        if cb is None:
+            return None
+        can = Analysis(cb)
+        if any(kind == 'assign' for a, v, pt, kind in can.stores):
+            return None
+        rets = []
+        for r in can.cfg.returns:
+            t = can.local_term(r, len(cb.blocks[r]['st']), 0)
+            rets.extend(can.phi_terms(t) if t[0] == 'phi' else [t])
+        if len(rets) != 1:
+            return None
+        ups = {fn: ft for fn, ft in clo[4]}
+        params = {2 + i: ft for i, (fn, ft) in enumerate(args[1][4])}
+        def sub(t):
+            if not isinstance(t, tuple) or not t:
+                return t
+            if len(t) == 2 and t[0] == 'param' and t[1] in params:
+                return params[t[1]]
+            if len(t) == 5 and t[0] == 'field' and isinstance(t[2], str) and t[2].startswith('upvar'):
+                base = t[1]
+                while base[0] in ('ref', 'deref'):
+                    base = base[1]
+                if base == ('param', 1) and t[2] in ups:
+                    return ups[t[2]]
+            if t[0] == 'deref':
+                inner = sub(t[1])
+                return inner[1] if inner[0] == 'ref' else ('deref', inner)
+            return tuple(sub(x) for x in t)
+        return sub(rets[0])
 
     def callee_info(self, bb):
         return callee_of(self.b.blocks[bb]['t'])
